@@ -365,6 +365,10 @@ def auto_discharge(facts, f, defs, s, ctx):
         why = idxproof.proof(facts, f, s.get("line")) or idxproof.clamp_proof(facts, f, s.get("line"))
         if why:
             return why
+    if s["kind"] == "str-index":
+        import idxproof
+        if s.get("line") in idxproof.boundary_sites(facts, f):
+            return "A11: the byte offset is the position of the k-th character of the same string (char_indices().nth(k)), or its length"
     if s["kind"] == "assert":
         a = s["what"]
         ops = t.get("ovf_ops")
